@@ -32,6 +32,10 @@ Definition expected_fingerprints : list (string * string) := [
   ("cryptomath.py:numberToByteArray", "b38d08ee6bd42849");
   ("cryptomath.py:divceil", "24423bf7d72accb1");
   ("cryptomath.py:secureHash", "7fe3e9951a0f75c7");
+  ("python_dsakey.py:Python_DSAKey.sign", "e7342ccd4ca09bbb");
+  ("python_dsakey.py:Python_DSAKey.verify", "624597cfc50507c2");
+  ("python_dsakey.py:Python_DSAKey.hashAndSign", "ce8bcedfcb353606");
+  ("python_dsakey.py:Python_DSAKey.hashAndVerify", "8923a87b6397cca1");
   ("python_rsakey.py:Python_RSAKey._rawPrivateKeyOp", "21ec51fc9e09cfe1");
   ("python_rsakey.py:Python_RSAKey._rawPrivateKeyOpHelper", "35769c37e4fcadbd");
   ("python_rsakey.py:Python_RSAKey._rawPublicKeyOp", "5438ac819f318ef5");
